@@ -509,9 +509,20 @@ def load_replay(ctx, path):
 CHECKS = {"C16": check_C16, "C09": check_C09}
 
 
+def all_checks():
+    from . import inflate_checks as ic
+    from . import deflate_checks as dc
+    d = dict(CHECKS)
+    d.update({"C03": ic.check_C03, "C04": ic.check_C04, "C05": ic.check_C05, "C06": ic.check_C06, "C07": ic.check_C07,
+              "C08": ic.check_C08, "C13": ic.check_C13, "C19": ic.check_C19,
+              "C01": dc.check_C01, "C02": dc.check_C02, "C10": dc.check_C10, "C11": dc.check_C11, "C12": dc.check_C12,
+              "C14": dc.check_C14, "C15": dc.check_C15})
+    return d
+
+
 def run_property(prop, tier, seed, replay):
     rep = Report(prop, tier, seed)
-    fn = CHECKS.get(prop)
+    fn = all_checks().get(prop)
     if fn is None:
         print("no check registered for %s" % prop)
         return 2
